@@ -51,7 +51,7 @@ PROP = {
                   "FloatLawsSqrt, not proved about native floats; they are shown satisfiable (exact integer instance) and sampled on the "
                   "real function by the monotonicity monitor. On the pinned tree the property is violated (known findings): forged or "
                   "self-hop paths count as work because Block::validate discards the transaction verdict; a second fee transaction, or one "
-                  "in a ticket-less block, passes validation; the 10^19 sentinel is below the requirement for burn fees >= 10^19.",
+                  "in a ticket-less block, passes validation; a node that joined mid-chain compares no fee transaction at all; the 10^19 sentinel is below the requirement for burn fees >= 10^19.",
     "lean_modules": ["Saito.Props.C08"],
     "suites": ["bf"],
     "relevant": lambda op, a, b: True,
@@ -67,7 +67,8 @@ PROP = {
             "signature: garbage, zero, wrong signer, signed for another recipient; combinations) - total_work_for_me, "
             "validate_routing_path, the harness's own oracle of valid work, and get_winning_routing_node on lottery numbers at every "
             "threshold of work_by_hop and random; (c) chains genesis -> [A0] -> A -> B -> C of real blocks (Block::create, transactions "
-            "re-ordered, re-signed) on a real node: B at every elapsed value {1,2,3,50,99,100,101,150,198,199,200,201,400,0,-1,-500} ms "
+            "re-ordered, re-signed) on TWO real nodes - one fed from genesis (validate_against_utxo = true) and one that joined mid-chain (fed "
+            "from block 2 on, never receives block 1: has_total_supply_loaded() = false, measured on the node and passed to the model): B at every elapsed value {1,2,3,50,99,100,101,150,198,199,200,201,400,0,-1,-500} ms "
             "(heartbeat 100) x work {one short, exact, one over, none, well over, half} x filler path kinds {valid 1 hop, valid 2 hops, "
             "forwarder, forged, self-hop}, plus 400 (thorough 1500) random chains; (d) the fee transaction of every ticket block against "
             "the model (capped and uncapped, parent with / without ticket), and blocks whose fee transactions were tampered with (key, "
@@ -83,6 +84,9 @@ PROP = {
         "hop signature validity is an oracle bit supplied by the harness (real secp256k1 verification); hashes behind lottery numbers are computed by the harness with the real blake3",
         "a first hop signed by a key other than the sender counts as valid (validate_routing_path does not tie hop 0 to the sender; Network::propagate_transaction "
         "legitimately produces such paths when a node forwards a path-less transaction)",
+        "kinds of validating node: one holding block 1, one that joined mid-chain with fewer than genesis_period blocks (validate_against_utxo = false: the header "
+        "fee/payout/treasury/graveyard fields and the fee-transaction hash are not compared and no supply check runs; the work gate, burn fee, difficulty, ticket "
+        "solution and transaction sweep are applied all the same)",
         "supply-check outcome of the model (blockOutcome) presumes the block is otherwise honest and extends the tip",
     ],
     "repair_check": "the repaired-flag branches of the model were compared with a patched copy of saito-core (notes/candidate-fix-C08.diff: "
